@@ -1,6 +1,6 @@
 /-
-  Lemmas/TextOstream — `operator<<` of `integer<nbits,bt>`: under the guard `10^k < 2^nbits` (block10 fits)
-  the printed text is the exact decimal expansion.
+  Lemmas/TextOstream — `operator<<` of `integer<nbits,bt>`: the printed text is the exact decimal expansion, for
+  every width and block width (the working type is wide enough for block10 since the D19 repair).
 -/
 import UVerifProofs.Lemmas.TextBlocks
 
@@ -26,10 +26,28 @@ theorem pow10_le_word (w : Nat) (hw : w = 8 ∨ w = 16 ∨ w = 32 ∨ w = 64) : 
 theorem digitsInBlock10_pos (w : Nat) : 0 < digitsInBlock10 w := by
   unfold digitsInBlock10; split <;> (try split) <;> (try split) <;> omega
 
-/-- on non-negative values below 2^nbits with `block10 = 10^k` the `integer<nbits+1>` loop is the loop on naturals. -/
-theorem intOstreamLoop_eq_natLoop (n w k : Nat) (hk : 10 ^ k ≤ 2 ^ w) :
+theorem pow10_lt_half_word (w : Nat) (hw : w = 8 ∨ w = 16 ∨ w = 32 ∨ w = 64) : 10 ^ digitsInBlock10 w < 2 ^ (w - 1) := by
+  rcases hw with rfl | rfl | rfl | rfl <;> decide
+
+/-- the working width holds nbits+1 bits … -/
+theorem ostreamWidth_ge (n w : Nat) : n + 1 ≤ ostreamWidth n w := by
+  unfold ostreamWidth; split <;> omega
+
+/-- … and block10 as a positive signed number. -/
+theorem pow10_lt_ostreamWidth (n w : Nat) (hw : w = 8 ∨ w = 16 ∨ w = 32 ∨ w = 64) :
+    10 ^ digitsInBlock10 w < 2 ^ (ostreamWidth n w - 1) := by
+  have h1 := pow10_lt_half_word w hw
+  unfold ostreamWidth
+  split
+  · exact h1
+  · have : (2 : Nat) ^ (w - 1) ≤ 2 ^ (n + 1 - 1) := Nat.pow_le_pow_right (by decide) (by omega)
+    omega
+
+/-- on non-negative values below 2^nbits with `block10 = 10^k` the loop on `integer<W>` (any `W > nbits`) is the
+    loop on naturals. -/
+theorem intOstreamLoop_eq_natLoop (n W w k : Nat) (hW : n + 1 ≤ W) (hk : 10 ^ k ≤ 2 ^ w) :
     ∀ (fuel T cap : Nat), T < 2 ^ n →
-      intOstreamLoop (n + 1) w k ((10 ^ k : Nat) : Int) fuel (T : Int) cap = natLoop k fuel T cap
+      intOstreamLoop W w k ((10 ^ k : Nat) : Int) fuel (T : Int) cap = natLoop k fuel T cap
   | 0, _, _, _ => rfl
   | fuel + 1, T, cap, hT => by
     unfold intOstreamLoop natLoop
@@ -43,16 +61,19 @@ theorem intOstreamLoop_eq_natLoop (n w k : Nat) (hk : 10 ^ k ≤ 2 ^ w) :
         rw [Int.tdiv_eq_ediv_of_nonneg (by omega)]; norm_cast
       have hr : Int.tmod (T : Int) ((10 ^ k : Nat) : Int) = ((T % 10 ^ k : Nat) : Int) := by
         rw [Int.tmod_eq_emod_of_nonneg (by omega)]; norm_cast
+      have hnW : (2 : Nat) ^ n ≤ 2 ^ (W - 1) := Nat.pow_le_pow_right (by decide) (by omega)
+      have hWW : (2 : Nat) ^ (W - 1) ≤ 2 ^ W := Nat.pow_le_pow_right (by decide) (by omega)
       have hqlt : T / 10 ^ k < 2 ^ n := lt_of_le_of_lt (Nat.div_le_self _ _) hT
-      have hrlt : T % 10 ^ k < 2 ^ (n + 1) := by
+      have hrlt : T % 10 ^ k < 2 ^ W := by
         have : T % 10 ^ k ≤ T := Nat.mod_le _ _
-        have : 2 ^ n ≤ 2 ^ (n + 1) := Nat.pow_le_pow_right (by decide) (by omega)
         omega
       have hrw : T % 10 ^ k % 2 ^ w = T % 10 ^ k := Nat.mod_eq_of_lt (lt_of_lt_of_le (Nat.mod_lt _ hB) hk)
-      rw [hq, hr, ofSigned_natCast (n + 1) _ (lt_of_lt_of_le hqlt (Nat.pow_le_pow_right (by decide) (by omega))),
-        toSigned_small (n + 1) _ (by omega) (by simpa using hqlt), ofSigned_natCast (n + 1) _ hrlt, hrw, blockDigitsLE_eq]
+      have hqW : T / 10 ^ k < 2 ^ W := by omega
+      have hqW1 : T / 10 ^ k < 2 ^ (W - 1) := by omega
+      rw [hq, hr, ofSigned_natCast W (T / 10 ^ k) hqW,
+        toSigned_small W (T / 10 ^ k) (by omega) hqW1, ofSigned_natCast W (T % 10 ^ k) hrlt, hrw, blockDigitsLE_eq]
       simp only [length_padLE]
-      rw [intOstreamLoop_eq_natLoop n w k hk fuel (T / 10 ^ k) _ hqlt]
+      rw [intOstreamLoop_eq_natLoop n W w k hW hk fuel (T / 10 ^ k) _ hqlt]
 
 theorem two_pow_lt_ten_pow (n : Nat) : 2 ^ n < 10 ^ (n / 3 + 1) := by
   have h1 : 2 ^ n ≤ 2 ^ (3 * (n / 3) + 2) := Nat.pow_le_pow_right (by decide) (by omega)
@@ -62,17 +83,21 @@ theorem two_pow_lt_ten_pow (n : Nat) : 2 ^ n < 10 ^ (n / 3 + 1) := by
   rw [Nat.pow_succ]
   omega
 
-/-- **integer `operator<<` prints the exact decimal expansion** for every width, block width and value — PROVIDED the
-    block constant fits: `10^k < 2^nbits` (k = 2, 4, 9, 18 digits per 8/16/32/64-bit block). -/
+/-- **integer `operator<<` prints the exact decimal expansion** for EVERY width, block width and value
+    (k = 2, 4, 9, 18 digits per 8/16/32/64-bit block; the working type always holds `10^k`). -/
 theorem integerOstream_exact (n w v : Nat) (hw : w = 8 ∨ w = 16 ∨ w = 32 ∨ w = 64) (hn : 0 < n)
-    (hfit : 10 ^ digitsInBlock10 w < 2 ^ n) (hv : v < 2 ^ n) :
+    (hv : v < 2 ^ n) :
     integerOstream n w v = some (intToDec (toSigned n v)) := by
   obtain ⟨hmag, hsign⟩ := magnitude_toSigned n v hn hv
   set k := digitsInBlock10 w with hk
+  have hWge := ostreamWidth_ge n w
+  have hfitW := pow10_lt_ostreamWidth n w hw
   have hb10 : block10Value n w = ((10 ^ k : Nat) : Int) := by
     unfold block10Value
-    rw [← hk, Nat.mod_eq_of_lt (lt_of_lt_of_le hfit (Nat.pow_le_pow_right (by decide) (by omega)))]
-    exact toSigned_small (n + 1) _ (by omega) (by simpa using hfit)
+    rw [← hk] at hfitW ⊢
+    have hWW : (2 : Nat) ^ (ostreamWidth n w - 1) ≤ 2 ^ ostreamWidth n w := Nat.pow_le_pow_right (by decide) (by omega)
+    rw [Nat.mod_eq_of_lt (by omega)]
+    exact toSigned_small (ostreamWidth n w) _ (by omega) hfitW
   have hb10ne : block10Value n w ≠ 0 := by
     rw [hb10]
     have : 0 < 10 ^ k := Nat.pow_pos (by decide)
@@ -86,7 +111,7 @@ theorem integerOstream_exact (n w v : Nat) (hw : w = 8 ∨ w = 16 ∨ w = 32 ∨
     omega
   unfold integerOstream
   simp only [hb10, ← hk, ← hT]
-  rw [intOstreamLoop_eq_natLoop n w k (by rw [hk]; exact pow10_le_word w hw) _ T _ hTlt]
+  rw [intOstreamLoop_eq_natLoop n (ostreamWidth n w) w k hWge (by rw [hk]; exact pow10_le_word w hw) _ T _ hTlt]
   obtain ⟨s1, s2, s3⟩ := natLoop_spec k (by rw [hk]; exact digitsInBlock10_pos w) (n / 3 + 1 + 1) T (n / 3 + 1) (by omega)
   generalize hL : (natLoop k (n / 3 + 1 + 1) T (n / 3 + 1)).length = L at *
   have hTL : T < 10 ^ L := by
